@@ -19,8 +19,8 @@ func init() {
 			"(items, usage, size; the classification of all struct fields is exhaustive and checked) and every list-helper call happens with c.lock held on every path; " +
 			"hit/miss are touched only through sync/atomic; conf is written only by the constructor; no lock is leaked or taken twice; items are immutable once " +
 			"published in the map (their key/value are stored only into a fresh local before the map store). These are the structural conditions for data-race freedom and " +
-			"per-key atomicity; linearizability itself (a property of histories) is not decided.",
-		Technique: "lockset (must/may-held) dataflow + who-may-write + publication/immutability typestate on go/ssa",
+			"per-key atomicity. The C09 bounds in every Stats snapshot: the relational interpreter proves size <= MaxSize and len(items) <= MaxCount at every release of the mutex from the same bounds at its acquisition (C09.bounds), with the limits tied to the configuration by C09.config-exact. Linearizability itself (a property of histories) is not decided.",
+		Technique: "lockset (must/may-held) dataflow + who-may-write + publication/immutability typestate on go/ssa; linear-constraint abstract interpretation of the critical sections for the bounds",
 		Note:      "Trusted: go/ssa, sync.Mutex semantics. Assumes callers do not mutate key/value slices after Set and cache objects are only created by newCache.",
 		DesignRef: "DESIGN.md section 4, C10",
 		Run:       runC10,
@@ -217,7 +217,8 @@ func runC10(c *Ctx) {
 		return
 	}
 	c.L.Floor("C10.insert-atomic", 2)
-	c09ConfigExact(c) // the bounds every Stats snapshot must respect are the configured ones
+	c09ConfigExact(c)      // the bounds every Stats snapshot must respect are the configured ones
+	c09BoundsMode(c, true) // ... and they hold whenever the lock is released, i.e. in every snapshot
 	c10InsertAtomic(c, c.fn("cache", "cache.Set"))
 	for _, fn := range ci.fns {
 		if ci.helper[fn] || fn.Name() == "structPtr" {
